@@ -9,6 +9,7 @@ import (
 	"bytes"
 	"context"
 	"encoding/json"
+	"errors"
 	"fmt"
 	"math/rand"
 	"net/url"
@@ -33,6 +34,7 @@ import (
 // ---------------------------------------------------------------- C04 / C07 histories
 
 type marker struct {
+	slow time.Duration
 	ver  int
 	mu   sync.Mutex
 	seen map[int]int
@@ -48,6 +50,14 @@ func (m *marker) Process(ctx context.Context, e *eventlogger.Event) (*eventlogge
 }
 func (m *marker) Reopen() error              { return nil }
 func (m *marker) Type() eventlogger.NodeType { return eventlogger.NodeTypeFilter }
+
+// Close takes a while (a sink flushing): removals spend time outside the Broker's lock.
+func (m *marker) Close(ctx context.Context) error {
+	if m.slow > 0 {
+		time.Sleep(m.slow)
+	}
+	return nil
+}
 
 type leaf struct{ t eventlogger.NodeType }
 
@@ -110,6 +120,9 @@ func RunHistory(id int, seed int64) (*History, []Problem) {
 	doReg := func(r *rand.Rand) {
 		ver := int(atomic.AddInt64(&verc, 1))
 		m := &marker{ver: ver, seen: map[int]int{}}
+		if id%3 == 0 {
+			m.slow = time.Duration(50+r.Intn(400)) * time.Microsecond
+		}
 		markers.Store(ver, m)
 		ids := []eventlogger.NodeID{eventlogger.NodeID(fmt.Sprintf("mk%d", ver)), eventlogger.NodeID(fmt.Sprintf("fm%d", ver)), eventlogger.NodeID(fmt.Sprintf("sk%d", ver))}
 		if err := b.RegisterNode(ids[0], m); err != nil {
@@ -173,13 +186,15 @@ func RunHistory(id int, seed int64) (*History, []Problem) {
 					doReg(r)
 				case x < 8:
 					pid := pids[r.Intn(len(pids))]
-					n := logInv(rec{"kind": "rem", "pid": pid})
 					if r.Intn(2) == 0 {
+						n := logInv(rec{"kind": "rem", "pid": pid})
 						b.RemovePipeline("t", eventlogger.PipelineID(pid))
+						logResp(n, rec{})
 					} else {
-						b.RemovePipelineAndNodes(context.Background(), "t", eventlogger.PipelineID(pid))
+						n := logInv(rec{"kind": "rpan", "pid": pid})
+						ok, _ := b.RemovePipelineAndNodes(context.Background(), "t", eventlogger.PipelineID(pid))
+						logResp(n, rec{"removed": map[bool]string{true: "t", false: "f"}[ok]})
 					}
-					logResp(n, rec{})
 				case x < 14:
 					doSend()
 				case x < 16:
@@ -215,6 +230,22 @@ func RunHistory(id int, seed int64) (*History, []Problem) {
 		a = "t"
 	}
 	logResp(n, rec{"any": a})
+	// quiescent probe of the node table: which versions' nodes are referenced, registered but idle, or gone
+	for ver := 1; ver <= int(atomic.LoadInt64(&verc)); ver++ {
+		n := logInv(rec{"kind": "nprobe", "ver": ver})
+		err := b.RemoveNode(context.Background(), eventlogger.NodeID(fmt.Sprintf("mk%d", ver)))
+		res := "ok"
+		switch {
+		case err == nil:
+		case errors.Is(err, eventlogger.ErrNodeNotFound):
+			res = "notfound"
+		case strings.Contains(err.Error(), "still in use"):
+			res = "inuse"
+		default:
+			res = "error: " + err.Error()
+		}
+		logResp(n, rec{"res": res})
+	}
 	return &History{ID: id, G: G, H: h}, problems
 }
 
